@@ -285,6 +285,28 @@ def run(tier, work, replay=None):
         for name in ("QLocals", "MLocals", "SLocals", "SQueryOnly", "SPlain"):
             n_eval += 1
             judge_doc(v, dict(feats, operation=name), lschema, lq, name, o["ops"].get(name, {}).get("body"), {"operation": name, "record": o["ops"].get(name)})
+    # ---- (m) @mixin in every position the generator supports: on an operation field, a nested field, a field inside an inline
+    #          fragment, a field inside an inline fragment of a fragment, a fragment definition -- all must be stripped
+    mq = ('query MixOp { a @mixin(from: ".mixins_mod", import: "MixinO") { id friend @mixin(from: ".mixins_mod", import: "MixinF") { id } '
+          '... on A { friend2: friend @mixin(from: ".mixins_mod", import: "MixinO") { name } } } }\n'
+          'query MixUnion { u { ...MixU } }\n'
+          'fragment MixU on U @mixin(from: ".mixins_mod", import: "MixinF") { ... on D { owner @mixin(from: ".mixins_mod", import: "MixinO") { id } } ... on A { a1 } }\n')
+    for vname, plugins in (("plain", []), ("extract", [EXTRACT])):
+        job = write_job(work.dir / f"job_m_{vname}", schema=gamma.SDL, queries=mq, package="gclient",
+                        options={"async_client": False, "plugins": plugins, "files_to_include": ["mixins_mod.py"]},
+                        files={"mixins_mod.py": "class MixinF:\n    pass\n\n\nclass MixinO:\n    pass\n"})
+        r = generate(job)
+        feats = {"part": "mixin_positions", "variant": vname}
+        if r["exc_class"]:
+            v.violation(feats, f"gen_crash:{r['exc_class']}", {"message": r["exc_msg"]})
+            continue
+        o = run_in_pkg(job, "harness.pkg.capture", {"package": "gclient", "ops": ["MixOp", "MixUnion"], "data": None})
+        for name in ("MixOp", "MixUnion"):
+            n_eval += 1
+            body = o["ops"].get(name, {}).get("body")
+            judge_doc(v, dict(feats, operation=name), uschema, mq, name, body, {"operation": name})
+            if body and "@mixin" in (body.get("query") or ""):
+                v.violation(dict(feats, operation=name), "mixin_directive_sent", {"sent": body.get("query")})
     # ---- (e) the repository's own example projects: every operation of every project, as its authors wrote it
     from .. import corpus
     import tomllib
